@@ -195,49 +195,101 @@ theorem colConst_sound {a b : Expr} {c : Col} {v : Val} (h : colConst a b = some
       exact ⟨by simp [Expr.cols], fun r => Or.inr ⟨by simp [eval], (constOf_sound ha).2 r⟩⟩
   · cases h
 
+theorem cmpFix_sound : ∀ (p : Bool) (t : Expr) {c : Col} {v : Val}, cmpFix p t = some (c, v) →
+    c ∈ t.cols ∧ ∀ r, isTrue (eval r t) = p → QExpr.get r c = v := by
+  intro p t
+  induction t generalizing p with
+  | cmp op a b _ _ =>
+    intro c v h
+    cases p <;> cases op <;> simp only [cmpFix] at h <;> try cases h
+    · obtain ⟨hc, hr⟩ := colConst_sound h
+      refine ⟨by simpa [Expr.cols] using hc, fun r ht => ?_⟩
+      simp only [eval, cmpVal, isTrue_bool, bne_eq_false_iff_eq] at ht
+      rcases hr r with ⟨e1, e2⟩ | ⟨e1, e2⟩
+      · rw [e1, e2] at ht; exact ht
+      · rw [e1, e2] at ht; exact ht.symm
+    · obtain ⟨hc, hr⟩ := colConst_sound h
+      refine ⟨by simpa [Expr.cols] using hc, fun r ht => ?_⟩
+      simp only [eval, cmpVal, isTrue_bool, beq_iff_eq] at ht
+      rcases hr r with ⟨e1, e2⟩ | ⟨e1, e2⟩
+      · rw [e1, e2] at ht; exact ht
+      · rw [e1, e2] at ht; exact ht.symm
+  | not t ih =>
+    intro c v h
+    simp only [cmpFix] at h
+    obtain ⟨hc, hv⟩ := ih (!p) h
+    refine ⟨by simpa [Expr.cols] using hc, fun r ht => hv r ?_⟩
+    simp only [eval, isTrue_bool] at ht
+    rw [← ht, Bool.not_not]
+  | inl a vs _ =>
+    intro c v h
+    cases p
+    · exact absurd h (by simp [cmpFix])
+    · cases a with
+      | col c' =>
+        match vs, h with
+        | [v'], h =>
+          simp only [cmpFix, Option.some.injEq, Prod.mk.injEq] at h
+          obtain ⟨rfl, rfl⟩ := h
+          refine ⟨by simp [Expr.cols], fun r ht => ?_⟩
+          simpa only [eval, isTrue_bool, List.contains_iff_mem, List.mem_singleton] using ht
+        | [], h => exact absurd h (by simp [cmpFix])
+        | _ :: _ :: _, h => exact absurd h (by simp [cmpFix])
+      | _ => exact absurd h (by simp [cmpFix])
+  | _ => intro c v h; cases p <;> exact absurd h (by simp [cmpFix])
+
+theorem isFix_sound (t : Expr) {c : Col} {v : Val} (h : isFix t = some (c, v)) :
+    c ∈ t.cols ∧ ∀ r, isTrue (eval r t) = true → QExpr.get r c = v :=
+  cmpFix_sound true t h
+
+theorem orFix_sound (t : Expr) {c : Col} {vs : List Val} (h : orFix t = some (c, vs)) :
+    c ∈ t.cols ∧ ∀ r, isTrue (eval r t) = true → QExpr.get r c ∈ vs := by
+  unfold orFix at h
+  split at h
+  · rename_i a b
+    split at h
+    · rename_i c1 v1 c2 v2 h1 h2
+      split at h
+      · rename_i hcc
+        simp only [Option.some.injEq, Prod.mk.injEq] at h
+        obtain ⟨rfl, rfl⟩ := h
+        obtain ⟨ca, ha⟩ := orFix_sound a h1
+        obtain ⟨_, hb⟩ := orFix_sound b (hcc ▸ h2)
+        refine ⟨by simp only [Expr.cols, List.mem_append]; exact Or.inl ca, fun r ht => ?_⟩
+        simp only [eval, isTrue_bool, Bool.or_eq_true] at ht
+        rcases ht with ht | ht
+        · exact List.mem_append.2 (Or.inl (ha r ht))
+        · exact List.mem_append.2 (Or.inr (hb r ht))
+      · cases h
+    · cases h
+  · cases hi : isFix t with
+    | none => rw [hi] at h; cases h
+    | some cv =>
+      obtain ⟨c', v⟩ := cv
+      rw [hi] at h
+      simp only [Option.map_some, Option.some.injEq, Prod.mk.injEq] at h
+      obtain ⟨rfl, rfl⟩ := h
+      obtain ⟨hc, hv⟩ := isFix_sound t hi
+      exact ⟨hc, fun r ht => by rw [hv r ht]; exact List.mem_singleton.2 rfl⟩
+
 /-- a recognised term reads the column and, where it holds, the column has one of the values -/
 theorem termFix_sound (t : Expr) {c : Col} {vs : List Val} (h : termFix t = some (c, vs)) :
     c ∈ t.cols ∧ ∀ r, isTrue (eval r t) = true → QExpr.get r c ∈ vs := by
   unfold termFix at h
   split at h
-  · rename_i a b
-    cases hp : colConst a b with
-    | none => rw [hp] at h; cases h
-    | some cv =>
-      obtain ⟨c', v⟩ := cv
-      rw [hp] at h
-      simp only [Option.map_some, Option.some.injEq, Prod.mk.injEq] at h
-      obtain ⟨rfl, rfl⟩ := h
-      obtain ⟨hc, hr⟩ := colConst_sound hp
-      refine ⟨by simpa [Expr.cols] using hc, fun r ht => ?_⟩
-      simp only [eval, cmpVal, isTrue_bool, beq_iff_eq] at ht
-      rcases hr r with ⟨e1, e2⟩ | ⟨e1, e2⟩
-      · rw [e1, e2] at ht; simp [ht]
-      · rw [e1, e2] at ht; simp [← ht]
-  · rename_i a b
-    cases hp : colConst a b with
-    | none => rw [hp] at h; cases h
-    | some cv =>
-      obtain ⟨c', v⟩ := cv
-      rw [hp] at h
-      simp only [Option.map_some, Option.some.injEq, Prod.mk.injEq] at h
-      obtain ⟨rfl, rfl⟩ := h
-      obtain ⟨hc, hr⟩ := colConst_sound hp
-      refine ⟨by simpa [Expr.cols] using hc, fun r ht => ?_⟩
-      simp only [eval, cmpVal, isTrue_bool, Bool.not_eq_true', bne_eq_false_iff_eq] at ht
-      rcases hr r with ⟨e1, e2⟩ | ⟨e1, e2⟩
-      · rw [e1, e2] at ht; simp [ht]
-      · rw [e1, e2] at ht; simp [← ht]
-  · rename_i t'
-    obtain ⟨hc, hv⟩ := termFix_sound t' h
-    refine ⟨by simpa [Expr.cols] using hc, fun r ht => hv r ?_⟩
-    simpa only [eval, isTrue_bool, Bool.not_not] using ht
-  · rename_i c' vs'
+  · rename_i c' v hi
     simp only [Option.some.injEq, Prod.mk.injEq] at h
     obtain ⟨rfl, rfl⟩ := h
-    refine ⟨by simp [Expr.cols], fun r ht => ?_⟩
-    simpa only [eval, isTrue_bool, List.contains_iff_mem] using ht
-  · cases h
+    obtain ⟨hc, hv⟩ := isFix_sound t hi
+    exact ⟨hc, fun r ht => by rw [hv r ht]; exact List.mem_singleton.2 rfl⟩
+  · split at h
+    · rename_i c' vs'
+      simp only [Option.some.injEq, Prod.mk.injEq] at h
+      obtain ⟨rfl, rfl⟩ := h
+      refine ⟨by simp [Expr.cols], fun r ht => ?_⟩
+      simpa only [eval, isTrue_bool, List.contains_iff_mem] using ht
+    · exact orFix_sound _ h
+    · cases h
 
 theorem addFixed_all {Q : Col → List Val → Prop} (hQ : QI Q) (fx fx' : Fixed) (t : Expr)
     (ha : AllF Q fx) (h1 : ∀ c vs, termFix t = some (c, vs) → Q c vs)
